@@ -377,3 +377,56 @@ func ParseBatchArg(raw json.RawMessage, extra interface{}) BatchArg {
 	}
 	return a
 }
+
+// ReplayIndex reads a replay file written by the driver and returns the index of the logged case.
+func ReplayIndex(path string) (idx int, raw json.RawMessage, ok bool) {
+	b, err := ioutil.ReadFile(path)
+	if err != nil {
+		return 0, nil, false
+	}
+	var f struct {
+		Case json.RawMessage `json:"case"`
+	}
+	if json.Unmarshal(b, &f) != nil || len(f.Case) == 0 {
+		return 0, nil, false
+	}
+	var c struct {
+		Index *int            `json:"index"`
+		Case  json.RawMessage `json:"case"`
+		State json.RawMessage `json:"state"`
+	}
+	if json.Unmarshal(f.Case, &c) != nil {
+		return 0, f.Case, false
+	}
+	if c.Index != nil {
+		return *c.Index, f.Case, true
+	}
+	for _, inner := range []json.RawMessage{c.Case, c.State} {
+		var d struct {
+			Index *int `json:"index"`
+		}
+		if len(inner) > 0 && json.Unmarshal(inner, &d) == nil && d.Index != nil {
+			return *d.Index, f.Case, true
+		}
+	}
+	return 0, f.Case, false
+}
+
+// ReplayOne re-runs the single logged case of a replay file through the property's child (same seed => same case).
+func ReplayOne(c *Ctx, child string, extra func(idx int) interface{}, onDeath func(d Death)) bool {
+	if c.Replay == "" {
+		return false
+	}
+	idx, _, ok := ReplayIndex(c.Replay)
+	if !ok {
+		c.R.Inconcl("replay file carries no case index; it is self-describing (case, expectation, observation) and cannot be re-run mechanically")
+		return true
+	}
+	var ex interface{}
+	if extra != nil {
+		ex = extra(idx)
+	}
+	c.R.Rule = "replay of one logged case (index " + strconv.Itoa(idx) + ")"
+	RunBatch(c, child, idx, idx+1, ex, 20*time.Minute, onDeath)
+	return true
+}
